@@ -224,7 +224,7 @@ class Cluster(object):
 
 
 def combine_at_angle(acc_sig_ns, acc_sig_we, angle):
-    off_rad = np.radians(angle)
+    off_rad = np.radians(float(angle))  # (np.radians of an int8 / uint8 angle is a float16)
     combo = acc_sig_ns.values * np.cos(off_rad) + acc_sig_we.values * np.sin(off_rad)
     new_sig = AccSignal(combo, acc_sig_ns.dt)
     return new_sig
@@ -244,6 +244,7 @@ def compute_rotated(acc_sig_ns, acc_sig_we, angle_off_ns=0.0, parameter=None, fu
     assert acc_sig_ns.dt == acc_sig_we.dt
     assert acc_sig_ns.npts == acc_sig_we.npts, (acc_sig_ns.npts, acc_sig_we.npts)
 
+    angle_off_ns = float(angle_off_ns)  # (0 - np.uint8(30) wraps around to 226)
     degrees = np.linspace(0 - angle_off_ns, 180. - angle_off_ns, points)
     degrees = np.mod(degrees, 360)
     pvalues = []
